@@ -87,6 +87,10 @@ class FactorColumnOp(BaseOp):
             factor_values = df[self.column_name].unique()
             factor_names = [self.column_name + '.' +
                             str(column_value) for column_value in factor_values]
+        elif len(factor_names) == 0:
+            # factor_names is optional even when factor_values are given: use the default names.
+            factor_names = [self.column_name + '.' +
+                            str(column_value) for column_value in factor_values]
 
         df_new = df.copy()
         for index, factor_value in enumerate(factor_values):
